@@ -18,6 +18,7 @@ CONSTANTS KemSet, KdfSet, AeadSet, ModeSet,
           ShotDl,        \* "msg": single-shot opens get the verbatim message only; "tamper": also modified ones
           Impost,        \* TRUE: after the honest sender, an impostor sender "i" may set up too (C08)
           Shape,         \* "all": every value combination; "one": one combination per (suite, mode)
+          EmitWiring,    \* TRUE: print the C15 wiring records
           Emit,          \* TRUE: print every generated transition (and the key-derivation prologue)
           HistLen,       \* print behaviours when hist has this many steps (generation runs)
           Ordered        \* TRUE: calls come in canonical order (cuts interleavings)
@@ -257,6 +258,20 @@ CheckSetup ==
     /\ Assert(SetupFailures', "SetupFailures") /\ Assert(SetupFailuresR', "SetupFailuresR")
     /\ Assert(NoCtxOnFailure', "NoCtxOnFailure") /\ Assert(SmallOrderRefused', "SmallOrderRefused")
     /\ Assert(OnlySmallOrderRefused', "OnlySmallOrderRefused")
+
+\* C15: for every PSK-mode sender, the export the RFC wiring gives and the one each mis-wiring would give
+WiringCtx == Leaf("wiringctx", 9)
+WiringOf(p) ==
+    LET e == Encap(p.suite[1], p.pkR, IF p.mode \in AuthModes THEN Id(p.skS, p.pkS) ELSE NoId, p.rng)
+        r == SetupSStep(p)
+    IN [setup |-> SetupSRec("s", p, r),
+        export |-> [op |-> "export", c |-> "s", form |-> "", plain |-> [len |-> 32], bytes |-> [exporter_ctx |-> WiringCtx],
+                    kind |-> "ok", err |-> "", out |-> [out |-> ExportValue(p.suite, r.km.exp, WiringCtx, 32)],
+                    outn |-> EmptyF, pre |-> NoState, post |-> NoState, untouched |-> FALSE],
+        hyps |-> [h \in WiringHyps |->
+                    ExportValue(p.suite, KeyScheduleH(h, p.suite, p.mode, e.ss, p.info, p.psk, p.pskId).exp, WiringCtx, 32)]]
+ASSUME EmitWiring => PrintT(ToJson([wiring |-> {WiringOf(p) : p \in {q \in SenderParams : q.mode \in PskModes /\ q.psk # <<>>}},
+                                    prologue |-> {[kem |-> k, pro |-> Prologue(k)] : k \in KemSet}]))
 
 ASSUME Emit => PrintT(ToJson([prologue |-> {[kem |-> k, pro |-> Prologue(k)] : k \in KemSet}]))
 EmitTr == Emit => PrintT(ToJson(TransitionRecord))
